@@ -14,6 +14,7 @@ import (
 type subjPart struct {
 	lit string
 	obj types.Object
+	fn  *kit.Func // a function value bound in the environment (subject-building closure)
 }
 
 // subjectParts resolves the string expression e of f into literal text and
@@ -78,6 +79,14 @@ func subjectParts(f *kit.Func, e ast.Expr, env map[types.Object][]subjPart, dept
 			}
 		}
 		return []subjPart{{obj: o}}, true
+	case *ast.SelectorExpr:
+		// a field bound in the environment (receiver field of a small type, set by its creator)
+		if o := kit.ObjOf(info, x); o != nil {
+			if ps, ok := env[o]; ok {
+				return ps, true
+			}
+		}
+		return nil, false
 	case *ast.BinaryExpr:
 		if x.Op != token.ADD {
 			return nil, false
@@ -156,6 +165,25 @@ func subjectParts(f *kit.Func, e ast.Expr, env map[types.Object][]subjPart, dept
 				out = append(out, ps...)
 			}
 			return out, true
+		}
+		// a function value bound in the environment: its single return, with its parameter bound to the argument
+		if fo := kit.ObjOf(info, x.Fun); fo != nil {
+			if ps, ok := env[fo]; ok && len(ps) == 1 && ps[0].fn != nil {
+				lit := ps[0].fn
+				rets := returnsOf(lit)
+				if len(rets) != 1 || len(rets[0]) != 1 || len(lit.Params()) != len(x.Args) {
+					return nil, false
+				}
+				env2 := map[types.Object][]subjPart{}
+				for i, lp := range lit.Params() {
+					ap, ok := subjectParts(f, x.Args[i], env, depth+1)
+					if !ok {
+						return nil, false
+					}
+					env2[lp] = ap
+				}
+				return subjectParts(lit, rets[0][0], env2, depth+1)
+			}
 		}
 		cf := f.CalleeFunc(x)
 		if cf == nil || cf.Body == nil || cf.Pkg != f.Pkg {
